@@ -340,6 +340,14 @@ def handle (j : Json) : Except String Json := do
       pure (Json.mkObj [("values", Json.mkObj (vals.map (fun (k, v) => (String.ofList k, match v with | some x => cvalJson x | none => Json.null)))),
         ("filters", Json.arr (filters.map cvalJson).toArray),
         ("dir_winner", match winner sources (lit "output.directory") with | some i => (i : Nat) | none => Json.null)])
+  | "cmakewrap" =>
+    let extra ← getStrList j "extra"
+    let argv := genArgv (getBoolD j "is_dir" false) (← getStr j "input") (← getStr j "output") extra
+    let pj (p : Option Parsed) : Json := match p with
+      | none => Json.null
+      | some p => Json.mkObj [("files", SL p.files), ("output", optS p.output), ("recursive", p.recursive), ("prefix", optS p.pfx),
+          ("settings", optS p.settings), ("excludes", SL p.excludes)]
+    pure (Json.mkObj [("argv", SL argv), ("parsed", pj (parseArgv argv {}))])
   | "rstops" =>
     let hc ← getStr j "hc"
     let title ← getStr j "title"
